@@ -145,3 +145,14 @@ def oas30_bare_null_type(job, failure) -> bool:
         and job.get("version") == "openapi-3.0"
         and "type null is not OpenAPI 3.0" in str(failure.get("detail"))
     )
+
+
+def graphql_enum_default_argument(job, failure) -> bool:
+    """C19: a resolver parameter whose default is an Enum member: when the argument is not
+    given, the resolver receives the enum *value* (the default is exposed to graphql-core in
+    serialized form, which is not the internal value of a GraphQL enum)"""
+    if failure.get("kind") != "resolver-not-invoked-with-deserialized-arguments":
+        return False
+    wit = failure.get("witness") or {}
+    log = failure.get("extra", {}).get("log")
+    return isinstance(wit, dict) and "color" not in wit and "Color." not in str(log) and "'find'" in str(log)
